@@ -342,9 +342,21 @@ func normalizePackage(repo, relDir string, p *packages.Package, imp types.Import
 					continue
 				}
 				encl := declKey(relDir, fd)
+				// the operand of go / defer stays a call: a new goroutine or a deferred frame is not
+				// something an inlined body reproduces
+				spawned := map[*ast.CallExpr]bool{}
+				ast.Inspect(fd.Body, func(n ast.Node) bool {
+					switch x := n.(type) {
+					case *ast.GoStmt:
+						spawned[x.Call] = true
+					case *ast.DeferStmt:
+						spawned[x.Call] = true
+					}
+					return true
+				})
 				ast.Inspect(fd.Body, func(n ast.Node) bool {
 					c, ok := n.(*ast.CallExpr)
-					if !ok {
+					if !ok || spawned[c] {
 						return true
 					}
 					cal, ok := typeutil.Callee(np.info, c).(*types.Func)
@@ -551,9 +563,21 @@ type iife struct {
 func findIIFEs(f *ast.File) []iife {
 	var out []iife
 	ast.Inspect(f, func(n ast.Node) bool {
-		if c, ok := n.(*ast.CallExpr); ok && len(c.Args) == 0 {
-			if l, ok := c.Fun.(*ast.FuncLit); ok && (l.Type.Params == nil || len(l.Type.Params.List) == 0) {
-				out = append(out, iife{c, l})
+		if c, ok := n.(*ast.CallExpr); ok && c.Ellipsis == token.NoPos {
+			if l, ok := c.Fun.(*ast.FuncLit); ok {
+				np := 0
+				plain := true
+				if l.Type.Params != nil {
+					for _, fld := range l.Type.Params.List {
+						if _, variadic := fld.Type.(*ast.Ellipsis); variadic || len(fld.Names) == 0 {
+							plain = false
+						}
+						np += len(fld.Names)
+					}
+				}
+				if plain && np == len(c.Args) {
+					out = append(out, iife{c, l})
+				}
 			}
 		}
 		return true
@@ -663,6 +687,8 @@ func flattenOne(src []byte, keep map[string]bool, serial int) ([]byte, string, b
 		// the parts of the statement that are evaluated when control reaches it, once and unconditionally
 		var evaluated []ast.Node
 		discard := false
+		var wrapInit ast.Stmt // init statement of an if/switch that has to move in front of the flattened call
+		var wrapFrom token.Pos
 		switch s := stmt.(type) {
 		case *ast.ExprStmt:
 			evaluated = []ast.Node{s.X}
@@ -685,16 +711,26 @@ func flattenOne(src []byte, keep map[string]bool, serial int) ([]byte, string, b
 		case *ast.SendStmt:
 			evaluated = []ast.Node{s.Chan, s.Value}
 		case *ast.IfStmt:
-			if s.Init != nil {
+			if s.Init != nil && s.Init.Pos() <= c.call.Pos() && c.call.End() <= s.Init.End() {
 				evaluated = append(evaluated, s.Init)
+			} else {
+				// `if init; C {` becomes `{ init; <flattened C>; if r {` : the init statement runs first
+				// in both forms, so only the condition is looked at
+				evaluated = append(evaluated, s.Cond)
+				if s.Init != nil {
+					wrapInit = s.Init
+					wrapFrom = s.Cond.Pos()
+				}
 			}
-			evaluated = append(evaluated, s.Cond)
 		case *ast.SwitchStmt:
-			if s.Init != nil {
+			if s.Init != nil && s.Init.Pos() <= c.call.Pos() && c.call.End() <= s.Init.End() {
 				evaluated = append(evaluated, s.Init)
-			}
-			if s.Tag != nil {
+			} else if s.Tag != nil {
 				evaluated = append(evaluated, s.Tag)
+				if s.Init != nil {
+					wrapInit = s.Init
+					wrapFrom = s.Tag.Pos()
+				}
 			}
 		case *ast.RangeStmt:
 			evaluated = []ast.Node{s.X}
@@ -844,6 +880,21 @@ func flattenOne(src []byte, keep map[string]bool, serial int) ([]byte, string, b
 			fmt.Fprintf(&pre, "var %s %s\n", tmps[i], t)
 		}
 		var named bytes.Buffer
+		if lit.Type.Params != nil {
+			k := 0
+			for _, fld := range lit.Type.Params.List {
+				for _, nm := range fld.Names {
+					tmp := fmt.Sprintf("a%d_%d__", k, serial)
+					fmt.Fprintf(&pre, "var %s %s = %s\n", tmp, text(fld.Type), text(c.call.Args[k]))
+					if nm.Name != "_" {
+						fmt.Fprintf(&named, "var %s %s = %s\n_ = %s\n", nm.Name, text(fld.Type), tmp, nm.Name)
+					} else {
+						fmt.Fprintf(&named, "_ = %s\n", tmp)
+					}
+					k++
+				}
+			}
+		}
 		for i, nm := range rnames {
 			if nm != "_" {
 				fmt.Fprintf(&named, "var %s %s\n_ = %s\n", nm, rtypes[i], nm)
@@ -857,6 +908,21 @@ func flattenOne(src []byte, keep map[string]bool, serial int) ([]byte, string, b
 		}
 		var out bytes.Buffer
 		out.Write(src[:off(stmt.Pos())])
+		if wrapInit != nil {
+			kw := "if "
+			if _, isSw := stmt.(*ast.SwitchStmt); isSw {
+				kw = "switch "
+			}
+			out.WriteString("{\n" + text(wrapInit) + "\n")
+			out.Write(pre.Bytes())
+			out.WriteString(kw)
+			out.Write(src[off(wrapFrom):off(c.call.Pos())])
+			out.WriteString(strings.Join(tmps, ", "))
+			out.Write(src[off(c.call.End()):off(stmt.End())])
+			out.WriteString("\n}")
+			out.Write(src[off(stmt.End()):])
+			return out.Bytes(), ctext, true
+		}
 		out.Write(pre.Bytes())
 		if !discard {
 			out.Write(src[off(stmt.Pos()):off(c.call.Pos())])
